@@ -52,7 +52,7 @@ def _run(c, sig, fs, fr):
     if _objs.get('owner') is not c:      # identity of the case dict (id() values are reused after garbage collection)
         _objs['owner'] = c       # both runs of one case use the SAME option objects
         fk = None if c['n_cycles'] is None else {'n_cycles': c['n_cycles']}
-        _objs['v'] = (dict(c['th']) if c['th'] else {}, implutil.fe_kwargs(fk, c['boundary'], None), ({'amp_threshes': (0.5, 1.5)} if c['method'] == 'amp' else None))
+        _objs['v'] = (dict(c['th']) if c['th'] else {}, implutil.fe_kwargs(fk, c['boundary'], None), (dict({'amp_threshes': (0.5, 1.5)}, **({'fs': 123.0} if c['k'] % 3 == 0 else {'f_range': (3.0, 9.0)} if c['k'] % 3 == 1 else {})) if c['method'] == 'amp' else None))      # (a stale fs / f_range key in the burst options is overwritten by the call's own)
     th, fek, bk = _objs['v']
     return implutil.quiet(compute_features, sig, fs, fr, center_extrema=c['center'], burst_method=c['method'], burst_kwargs=bk, threshold_kwargs=th, find_extrema_kwargs=fek)
 
@@ -79,7 +79,7 @@ def evaluate(ctx, cases):
                 while tb is not None:
                     files.append(tb.tb_frame.f_code.co_filename); tb = tb.tb_next
                 last_own = max([i for i, f in enumerate(files) if '/bycycle/' in f] or [-1])
-                in_kernel = any('/neurodsp/' in f for f in files[last_own + 1:])
+                in_kernel = any(('/neurodsp/' in f and '/neurodsp/utils/checks' not in f) for f in files[last_own + 1:])
                 res.append(('transition band (kernel) ' if in_kernel else '') + type(e).__name__ + ': ' + str(e)[:60])
         info = {}
         if any(isinstance(r, str) and 'HistoryDependence' in r for r in res):
